@@ -3,7 +3,7 @@
   duplicates never appear; a run of single-tuple deletes is a set difference; an update is a sequence
   of primitive deletes/inserts whose net effect on membership is "the last primitive on a tuple wins".
 -/
-import ILV.Lemmas.WritesLive
+import ILV.Lemmas.ArityOk
 namespace ILV.Writes
 open ILV ILV.Store ILV.Batch ILV.Props.C31
 
@@ -32,10 +32,10 @@ theorem deleteCore_nodup (c : Codec) (e : Engine) (rel : String) (ts : List Tupl
   cases res with
   | error k => exact NodupAll_of_live h (deleteCore_err c e e' rel ts k hr)
   | ok n =>
-    obtain ⟨h1, _, h4⟩ := deleteCore_ok c e e' rel ts n hr
+    obtain ⟨h1, _, h4⟩ := deleteCoreRaw_ok c e e' rel _ n hr
     intro r
     by_cases hrr : r = rel
-    · subst hrr; simp only; rw [h1]; exact (deleteLive_spec _ ts (h r)).1
+    · subst hrr; simp only; rw [h1]; exact (deleteLive_spec _ _ (h r)).1
     · simp only; rw [h4 r hrr]; exact h r
 
 theorem deleteSeq_nodup (c : Codec) (rel : String) : ∀ (ts : List Tuple) (e : Engine) (acc : Nat), NodupAll e →
@@ -107,6 +107,75 @@ theorem updRows_nodup (c : Codec) (vars : List String) (dels inss : List Target)
       | error k => exact h2
       | ok i' => exact ih e2 d' i' h2
 
+theorem deleteSeq_arityOk (c : Codec) (rel : String) : ∀ (ts : List Tuple) (e : Engine) (acc : Nat), ArityOk e →
+    ArityOk (deleteSeq c e rel ts acc).1 := by
+  intro ts
+  induction ts with
+  | nil => intro e acc h; exact h
+  | cons t ts ih =>
+    intro e acc h
+    unfold deleteSeq
+    have hd := deleteCore_arityOk c e rel [t] h
+    rcases hr : deleteCore c e rel [t] with ⟨e', res⟩
+    rw [hr] at hd
+    cases res with
+    | error k => exact hd
+    | ok n => exact ih e' (acc + n) hd
+
+theorem updTargets_arityOk (c : Codec) (del : Bool) (b : Binding) : ∀ (ts : List Target) (e : Engine) (acc : Nat),
+    ArityOk e → ArityOk (updTargets c del b e ts acc).1 := by
+  intro ts
+  induction ts with
+  | nil => intro e acc h; exact h
+  | cons t ts ih =>
+    intro e acc h
+    obtain ⟨rel, args⟩ := t
+    unfold updTargets
+    cases hi : instHead b args with
+    | none => exact ih e acc h
+    | some x =>
+      simp only
+      cases del with
+      | true =>
+        simp only [if_true]
+        have hd := deleteCore_arityOk c e rel [x] h
+        rcases hr : deleteCore c e rel [x] with ⟨e', res⟩
+        rw [hr] at hd
+        cases res with
+        | error k => exact hd
+        | ok n => exact ih e' (acc + n) hd
+      | false =>
+        simp only [Bool.false_eq_true, if_false]
+        have hd := insertCore_arityOk c e rel [x] h
+        rcases hr : insertCore c e rel [x] with ⟨e', res⟩
+        rw [hr] at hd
+        cases res with
+        | error k => exact hd
+        | ok nd => exact ih e' (acc + nd.1) hd
+
+theorem updRows_arityOk (c : Codec) (vars : List String) (dels inss : List Target) :
+    ∀ (rows : List Tuple) (e : Engine) (d i : Nat), ArityOk e → ArityOk (updRows c vars dels inss e rows d i).1 := by
+  intro rows
+  induction rows with
+  | nil => intro e d i h; exact h
+  | cons row rows ih =>
+    intro e d i h
+    unfold updRows
+    simp only
+    have h1 := updTargets_arityOk c true (rowBinding vars row) dels e d h
+    rcases hr1 : updTargets c true (rowBinding vars row) e dels d with ⟨e1, res1⟩
+    rw [hr1] at h1
+    cases res1 with
+    | error k => exact h1
+    | ok d' =>
+      simp only
+      have h2 := updTargets_arityOk c false (rowBinding vars row) inss e1 i h1
+      rcases hr2 : updTargets c false (rowBinding vars row) e1 inss i with ⟨e2, res2⟩
+      rw [hr2] at h2
+      cases res2 with
+      | error k => exact h2
+      | ok i' => exact ih e2 d' i' h2
+
 /-- **no statement ever creates a duplicate** — for every codec, every query answer, every outcome. -/
 theorem exec_nodup (c : Codec) (ans : Answer) (e : Engine) (o : WOp) (h : NodupAll e) : NodupAll (exec c ans e o).1 := by
   cases o with
@@ -160,14 +229,14 @@ theorem exec_nodup (c : Codec) (ans : Answer) (e : Engine) (o : WOp) (h : NodupA
 
 /-! ### a run of single-tuple deletes is a set difference -/
 
-theorem deleteSeq_ok (c : Codec) (rel : String) : ∀ (ts : List Tuple) (e e' : Engine) (acc m : Nat),
+theorem deleteSeq_ok (c : Codec) (rel : String) : ∀ (ts : List Tuple) (e e' : Engine) (acc m : Nat), ArityOk e →
     deleteSeq c e rel ts acc = (e', .ok m) →
     liveOf e' rel = deleteLive (liveOf e rel) ts ∧ m + (liveOf e' rel).length = acc + (liveOf e rel).length ∧
     ∀ r, r ≠ rel → liveOf e' r = liveOf e r := by
   intro ts
   induction ts with
   | nil =>
-    intro e e' acc m h
+    intro e e' acc m _ h
     simp only [deleteSeq, Prod.mk.injEq, Except.ok.injEq] at h
     obtain ⟨h1, h2⟩ := h
     subst h1; subst h2
@@ -175,16 +244,17 @@ theorem deleteSeq_ok (c : Codec) (rel : String) : ∀ (ts : List Tuple) (e e' : 
     simp only [deleteLive, List.any_nil, Bool.not_false]
     exact (List.filter_eq_self.2 (fun _ _ => rfl)).symm
   | cons t ts ih =>
-    intro e e' acc m h
+    intro e e' acc m ha h
     unfold deleteSeq at h
+    have ha1 := deleteCore_arityOk c e rel [t] ha
     rcases hr : deleteCore c e rel [t] with ⟨e1, res⟩
-    rw [hr] at h
+    rw [hr] at h ha1
     cases res with
     | error k => simp at h
     | ok n =>
       simp only at h
-      obtain ⟨a1, a2, a3⟩ := deleteCore_ok c e e1 rel [t] n hr
-      obtain ⟨b1, b2, b3⟩ := ih e1 e' (acc + n) m h
+      obtain ⟨a1, a2, a3⟩ := deleteCore_ok c e e1 rel [t] n ha hr
+      obtain ⟨b1, b2, b3⟩ := ih e1 e' (acc + n) m ha1 h
       refine ⟨by rw [b1, a1, deleteLive_deleteLive], ?_, fun r hr' => (b3 r hr').trans (a3 r hr')⟩
       have hle : (liveOf e1 rel).length ≤ (liveOf e rel).length := by
         rw [a1]; exact List.length_filter_le _ _
@@ -220,17 +290,44 @@ theorem memAfter_congr (r : String) (y : Tuple) : ∀ (ps : List Prim) (a b : Pr
       simp only [memAfter]; apply ih
       by_cases hc : rel = r ∧ t = y <;> simp [hc, h]
 
-theorem updTargets_ok (c : Codec) (del : Bool) (b : Binding) : ∀ (ts : List Target) (e e' : Engine) (acc m : Nat),
+theorem updTargets_ok (c : Codec) (del : Bool) (b : Binding) : ∀ (ts : List Target) (e e' : Engine) (acc m : Nat), ArityOk e →
     updTargets c del b e ts acc = (e', .ok m) →
-    ∀ r y, (y ∈ liveOf e' r ↔ memAfter r y (targetPrims del b ts) (y ∈ liveOf e r)) := by
+    ArityOk e' ∧ ∀ r y, (y ∈ liveOf e' r ↔ memAfter r y (targetPrims del b ts) (y ∈ liveOf e r)) := by
   intro ts
   induction ts with
   | nil =>
-    intro e e' acc m h r y
+    intro e e' acc m ha h
     simp only [updTargets, Prod.mk.injEq] at h
-    rw [← h.1]; rfl
+    rw [← h.1]; exact ⟨ha, fun _ _ => Iff.rfl⟩
   | cons t ts ih =>
-    intro e e' acc m h r y
+    intro e e' acc m ha h
+    refine ⟨?_, ?_⟩
+    · -- arities
+      obtain ⟨rel, args⟩ := t
+      unfold updTargets at h
+      cases hi : instHead b args with
+      | none => rw [hi] at h; exact (ih e e' acc m ha h).1
+      | some x =>
+        rw [hi] at h
+        simp only at h
+        cases del with
+        | true =>
+          simp only [if_true] at h
+          have ha1 := deleteCore_arityOk c e rel [x] ha
+          rcases hr : deleteCore c e rel [x] with ⟨e1, res⟩
+          rw [hr] at h ha1
+          cases res with
+          | error k => simp at h
+          | ok n => exact (ih e1 e' (acc + n) m ha1 h).1
+        | false =>
+          simp only [Bool.false_eq_true, if_false] at h
+          have ha1 := insertCore_arityOk c e rel [x] ha
+          rcases hr : insertCore c e rel [x] with ⟨e1, res⟩
+          rw [hr] at h ha1
+          cases res with
+          | error k => simp at h
+          | ok nd => exact (ih e1 e' (acc + nd.1) m ha1 h).1
+    intro r y
     obtain ⟨rel, args⟩ := t
     unfold updTargets at h
     cases hi : instHead b args with
@@ -239,25 +336,26 @@ theorem updTargets_ok (c : Codec) (del : Bool) (b : Binding) : ∀ (ts : List Ta
       simp only at h
       have : targetPrims del b ((rel, args) :: ts) = targetPrims del b ts := by
         simp [targetPrims, List.filterMap_cons, hi]
-      rw [this]; exact ih e e' acc m h r y
+      rw [this]; exact (ih e e' acc m ha h).2 r y
     | some x =>
       rw [hi] at h
       simp only at h
       cases del with
       | true =>
         simp only [if_true] at h
+        have ha1 := deleteCore_arityOk c e rel [x] ha
         rcases hr : deleteCore c e rel [x] with ⟨e1, res⟩
-        rw [hr] at h
+        rw [hr] at h ha1
         cases res with
         | error k => simp at h
         | ok n =>
           simp only at h
-          obtain ⟨a1, _, a3⟩ := deleteCore_ok c e e1 rel [x] n hr
+          obtain ⟨a1, _, a3⟩ := deleteCore_ok c e e1 rel [x] n ha hr
           have hp : targetPrims true b ((rel, args) :: ts) = Prim.del rel x :: targetPrims true b ts := by
             simp [targetPrims, List.filterMap_cons, hi]
           rw [hp]
           simp only [memAfter]
-          rw [ih e1 e' (acc + n) m h r y]
+          rw [(ih e1 e' (acc + n) m ha1 h).2 r y]
           apply memAfter_congr
           by_cases hc : rel = r ∧ x = y
           · obtain ⟨h1, h2⟩ := hc
@@ -273,8 +371,9 @@ theorem updTargets_ok (c : Codec) (del : Bool) (b : Binding) : ∀ (ts : List Ta
             · rw [a3 r hrr]
       | false =>
         simp only [Bool.false_eq_true, if_false] at h
+        have ha1 := insertCore_arityOk c e rel [x] ha
         rcases hr : insertCore c e rel [x] with ⟨e1, res⟩
-        rw [hr] at h
+        rw [hr] at h ha1
         cases res with
         | error k => simp at h
         | ok nd =>
@@ -285,7 +384,7 @@ theorem updTargets_ok (c : Codec) (del : Bool) (b : Binding) : ∀ (ts : List Ta
             simp [targetPrims, List.filterMap_cons, hi]
           rw [hp]
           simp only [memAfter]
-          rw [ih e1 e' (acc + n) m h r y]
+          rw [(ih e1 e' (acc + n) m ha1 h).2 r y]
           apply memAfter_congr
           have hmem : ∀ z, z ∈ (insertLoop (liveOf e rel) 0 0 [x]).1 ↔ z ∈ liveOf e rel ∨ z = x := by
             intro z
@@ -310,17 +409,17 @@ theorem updTargets_ok (c : Codec) (del : Bool) (b : Binding) : ∀ (ts : List Ta
             · rw [a3 r hrr]
 
 theorem updRows_ok (c : Codec) (vars : List String) (dels inss : List Target) :
-    ∀ (rows : List Tuple) (e e' : Engine) (d i d' i' : Nat),
+    ∀ (rows : List Tuple) (e e' : Engine) (d i d' i' : Nat), ArityOk e →
     updRows c vars dels inss e rows d i = (e', .ok (d', i')) →
     ∀ r y, (y ∈ liveOf e' r ↔ memAfter r y (updPrims vars dels inss rows) (y ∈ liveOf e r)) := by
   intro rows
   induction rows with
   | nil =>
-    intro e e' d i d' i' h r y
+    intro e e' d i d' i' _ h r y
     simp only [updRows, Prod.mk.injEq] at h
     rw [← h.1]; rfl
   | cons row rows ih =>
-    intro e e' d i d' i' h r y
+    intro e e' d i d' i' ha h r y
     unfold updRows at h
     simp only at h
     rcases hr1 : updTargets c true (rowBinding vars row) e dels d with ⟨e1, res1⟩
@@ -335,9 +434,11 @@ theorem updRows_ok (c : Codec) (vars : List String) (dels inss : List Target) :
       | error k => simp at h
       | ok i1 =>
         simp only at h
-        have s1 := updTargets_ok c true (rowBinding vars row) dels e e1 d d1 hr1 r y
-        have s2 := updTargets_ok c false (rowBinding vars row) inss e1 e2 i i1 hr2 r y
-        have s3 := ih e2 e' d1 i1 d' i' h r y
+        obtain ⟨ha1, s1'⟩ := updTargets_ok c true (rowBinding vars row) dels e e1 d d1 ha hr1
+        obtain ⟨ha2, s2'⟩ := updTargets_ok c false (rowBinding vars row) inss e1 e2 i i1 ha1 hr2
+        have s1 := s1' r y
+        have s2 := s2' r y
+        have s3 := ih e2 e' d1 i1 d' i' ha2 h r y
         have hp : updPrims vars dels inss (row :: rows) =
             targetPrims true (rowBinding vars row) dels ++ (targetPrims false (rowBinding vars row) inss ++ updPrims vars dels inss rows) := by
           simp [updPrims, rowPrims]
